@@ -770,7 +770,27 @@ def fam_soup(rng, opts=None):
     return b.program()
 
 
-FAMILIES = {"method": fam_method, "operator": fam_operator, "linear": fam_linear, "soup": fam_soup}
+def fam_big(rng, opts=None):
+    """More than 127 scalar constraints (row indices beyond one byte)."""
+    opts = opts or {}
+    b = Builder(rng)
+    b.meta["family"] = "big"
+    f = b.func(b.pick(["SmoothStronglyConvexFunction", "SmoothConvexFunction"]))
+    L = _lips_of([x for x in b.funcs if x[0] == f][0][3])
+    xs, vs = b.stat(f)
+    x = x0 = b.init()
+    for _ in range(opts.get("N", 11)):
+        g, v = b.oracle(f, x)
+        x = b.pcomb([[1, x], [-b.pick([1.0, 0.5, 1.5]) / L, g]])
+    b.cons(b.sqdist(x0, xs), "<=", 1.0, initial=True)
+    vN = b.val(f, x)
+    b.metric(b.expr([[1.0, "e", vN], [-1.0, "e", vs]]))
+    if rng.random() < 0.5:
+        _add_lmi(b)
+    return b.program()
+
+
+FAMILIES = {"big": fam_big, "method": fam_method, "operator": fam_operator, "linear": fam_linear, "soup": fam_soup}
 
 
 def gen_program(rng, family=None, opts=None):
